@@ -229,6 +229,10 @@ class Ctx:
 
     def replay_file(self, f):
         os.makedirs(os.path.join(vlib.VERIF, "replays"), exist_ok=True)
+        if f.get("kind") in ("FRAG", "GO"):
+            path = os.path.join(vlib.VERIF, "replays", "%s-%s.json" % (self.pid, hashlib.sha1(f["reason"].encode()).hexdigest()[:12]))
+            json.dump(dict(property=self.pid, reason=f["reason"], kind=f["kind"]), open(path, "w"), indent=1)
+            return path
         sched = None
         sf = self.sched_of_trace.get(f["trace"])
         if sf and f.get("run"):
@@ -582,7 +586,79 @@ def c12(ctx):
     ctx.random_validate("smp", 32 if q else 320, 4 if q else 10)
 
 
+def c14(ctx):
+    """Frag.tla: sender arithmetic (ASSUME over all L, S, both header lengths) and the receiver automaton
+    (every arrival sequence up to MaxArrivals); every transition's schedule is replayed on a real
+    Conversation (v2 and v3) and context/processed compared with the model's state; the real fragmenter
+    is swept over sizes x lengths against the model's arithmetic; plus the fragment-size sweep of C04."""
+    import subprocess, shutil, glob, re
+    q = ctx.quick()
+    d = os.path.join(ctx.work, "frag")
+    os.makedirs(d, exist_ok=True)
+    shutil.copy(os.path.join(vlib.SPEC, "Frag.tla"), d)
+    open(os.path.join(d, "Frag.cfg"), "w").write("""SPECIFICATION Spec
+CONSTANTS
+  MaxL = %d
+  Hs = {17, 35}
+  MaxArrivals = %d
+  Export = TRUE
+VIEW view
+INVARIANTS OnlyComplete ProcessedOnce BufferBounded
+ACTION_CONSTRAINT Emit
+CHECK_DEADLOCK FALSE
+""" % (30 if q else 60, 5 if q else 6))
+    rc, out = vlib.run_tlc(d, module="Frag", workers=vlib.NCPU, timeout=3000)
+    gen, dist, err = vlib.tlc_stats(out)
+    if rc != 0 or err:
+        raise Broken("Frag.tla: rc=%s %s" % (rc, err))
+    ctx.states += dist
+    ctx.transitions += gen
+    ctx.model_runs.append(dict(name="Frag.tla", states=dist, transitions=gen, invariants=["OnlyComplete", "ProcessedOnce", "BufferBounded", "ASSUME SenderOK"]))
+    sched = os.path.join(d, "sched.ndjson")
+    n = 0
+    with open(sched, "w") as fo:
+        for line in open(out, errors="replace"):
+            m = re.match(r'<<"FRAGSCHED", "(.*)">>\s*$', line)
+            if m:
+                fo.write(m.group(1).replace('\\"', '"') + "\n")
+                n += 1
+    log("[frag] %d schedules exported" % n)
+    parts = vlib.NCPU
+    procs = []
+    for i in range(parts):
+        args = [vlib.BIN, "fragcheck", "-sizestep", "11" if q else "1", "-part", str(i), "-parts", str(parts)]
+        if i == 0:
+            args += ["-sched", sched]
+        procs.append(subprocess.Popen(args, stdout=subprocess.PIPE, text=True))
+    replayed = evals = viol = 0
+    first = None
+    for pr in procs:
+        o = pr.communicate()[0]
+        if pr.returncode != 0:
+            raise Broken("fragcheck failed")
+        for line in o.splitlines():
+            if line.startswith("FRAGVIOLATION") and first is None:
+                first = line
+            m = re.match(r"FRAGCHECK replayed=(\d+) sender_evaluations=(\d+) violations=(\d+)", line)
+            if m:
+                replayed += int(m.group(1)); evals += int(m.group(2)); viol += int(m.group(3))
+    ctx.traces_validated += replayed
+    ctx.events += evals + replayed
+    ctx.schedules += replayed
+    ctx.samples.append(dict(frag_schedule=open(sched).readline().strip()[:400]))
+    ctx.extra_cov["fragment_sender_evaluations"] = evals
+    if viol:
+        os.makedirs(os.path.join(vlib.VERIF, "replays"), exist_ok=True)
+        rp = os.path.join(vlib.VERIF, "replays", "C14-frag.json")
+        json.dump(dict(property="C14", first=first), open(rp, "w"))
+        ctx.findings.append(dict(kind="FRAG", reason=first or "fragmentation differs from Frag.tla", trace=None, line=0, ev="fragcheck", p="-", run=None, idx=None))
+    # fragmentation inside real sessions (sizes swept one by one, both versions)
+    ctx.random_validate("fragsweep", 16 if q else 64, 30 if q else 120)
+    ctx.also_props = {"C04"}
+
+
 TABLE = {
+    "C14": c14,
     "C11": c11,
     "C12": c12,
     "C15": c15,
